@@ -429,6 +429,16 @@ type Frame struct {
 	callRets map[string]Term // "<field>_<Method>_<k>" -> first result of that call (for known-finding regions)
 	callCnt  map[string]int
 	callReach map[string]string
+	chanFacts []*chanFact
+}
+
+// chanFact: a per-element fact about a channel returned by a call, instantiated at receives.
+type chanFact struct {
+	ch   string // channel handle term
+	ctx  *SpecCtx
+	v    string
+	body Expr
+	text string
 }
 
 func (vc *VC) newFrame(fn *ssa.Function, parent *Frame) *Frame {
